@@ -1,7 +1,7 @@
 #!/bin/sh
-# run every quick (or $1) check once; prints a one-line verdict per property
+# run every quick (or $1) check once (PROPS="C03 C08" restricts the list); prints a one-line verdict per property
 tier=${1:-quick}
-for p in C01 C02 C03 C04 C05 C06 C07 C08 C09 C10 C11 C12 C13 C14 C15 C16 C17 C18 C19 C20; do
+for p in ${PROPS:-C01 C02 C03 C04 C05 C06 C07 C08 C09 C10 C11 C12 C13 C14 C15 C16 C17 C18 C19 C20}; do
   s=$(date +%s)
   ./check $p --tier $tier > /tmp/runall.$p.log 2>&1; rc=$?
   echo "$p exit=$rc $(( $(date +%s) - s ))s $(grep -c '^VIOLATION' /tmp/runall.$p.log) violations $(grep -c '^KNOWN-FINDING' /tmp/runall.$p.log) known  $(tail -1 /tmp/runall.$p.log | cut -c1-120)"
